@@ -1,5 +1,5 @@
 """Program families per property (the bounded dimension; bounds stated in DESIGN §4)."""
-import itertools, random, copy
+import itertools, random, copy, re
 from .model import Field, Variant, Program, spell_param, ISIZE_MIN
 
 KANI_TYS = ["u8", "f32", "crate::m::Adv", "bool", "i8", "u16"]
@@ -2096,6 +2096,113 @@ def uniform_twins(programs, every=2):
         Q.note = "uniform u8 twin of " + P.pid + ": " + P.note
         out.append(Q)
     return out
+
+
+BOUND_PATH = {"PartialEq": "core::cmp::PartialEq", "Eq": "core::cmp::Eq", "PartialOrd": "core::cmp::PartialOrd",
+              "Ord": "core::cmp::Ord", "Hash": "core::hash::Hash", "Debug": "core::fmt::Debug",
+              "Clone": "core::clone::Clone", "Default": "core::default::Default"}
+
+
+def bound_twins(programs, limit=6, genericize=False):
+    """twins of generic programs whose type-level metas carry an explicit `bound` parameter in
+    every documented form (`bound(*)`, `bound(T: P)`, `bound = "T: P"`, `bound = true`,
+    `bound(false)` with the bound moved onto the declaration).  The parameter changes the impl
+    header only; the contract of the body is the one generated from the unchanged meaning."""
+    out = []
+    k = 0
+    cands = [P for P in programs if P.canary_of is None and P.kind != "union" and P.type_attrs is None
+             and not P.pid.endswith(("u", "a")) and (P.generics or genericize)]
+    # spread over the family (structs first, enums later in every family)
+    picked = []
+    for kind in ("struct", "enum"):
+        cs = [P for P in cands if P.kind == kind]
+        step = max(1, len(cs) // limit)
+        picked.append(cs[::step])
+    inter = [P for pair in itertools.zip_longest(*picked) for P in pair if P is not None]
+    for P in inter:
+        if len(out) >= limit:
+            break
+        if not P.generics and genericize:
+            G = _genericize(P)
+            if G is None:
+                continue
+            P = G
+        if not P.generics or not all(re.match(r"^T\d$", g) for g in P.generics):
+            continue
+        used = [g for g in P.generics if any(re.search(r"\b%s\b" % g, f.ty) for v in P.variants for f in v.fields)]
+        if used != list(P.generics):
+            continue
+        form = k % 5
+        k += 1
+        Q = copy.deepcopy(P)
+        Q.tags.pop("frozen_src", None)
+        Q.pid = P.pid + "b"
+        has = lambda tn: any(re.match(r"%s\b" % tn, t) for t in Q.traits)
+        copyish = has("Copy")
+        if has("Eq") and not has("PartialEq"):
+            continue
+        need = []
+        traits = []
+        ok = True
+        for j, t in enumerate(Q.traits):
+            m = re.match(r"^(\w+)\s*(?:\((.*)\))?$", t, re.S)
+            if m and (m.group(1) in ("Copy", "Eq") or (m.group(1) == "PartialOrd" and has("Ord"))):
+                # these take no `bound` here: Eq next to PartialEq and PartialOrd next to Ord are generated by the other entry
+                if m.group(1) in BOUND_PATH:
+                    need.append(BOUND_PATH[m.group(1)])
+                traits.append(t); continue
+            if not m or m.group(1) not in BOUND_PATH:
+                ok = False; break
+            tn, args = m.group(1), m.group(2)
+            path = BOUND_PATH[tn] if not (tn == "Clone" and copyish) else "core::marker::Copy"
+            need.append(path)
+            preds = ", ".join("%s: %s" % (g, path) for g in Q.generics)
+            b = ["bound(*)", "bound(%s)" % preds, 'bound = "%s"' % preds, "bound = true", "bound(false)"][form]
+            if tn == "Clone" and copyish and form == 0:
+                b = "bound(%s)" % preds        # `*` would bound by Clone only, the Copy impl then does not compile
+            if args is None or not args.strip():
+                traits.append("%s(%s)" % (tn, b))
+            elif (j + form) % 2:
+                traits.append("%s(%s, %s)" % (tn, b, args))
+            else:
+                traits.append("%s(%s, %s)" % (tn, args, b))
+        if not ok:
+            continue
+        Q.traits = traits
+        if form == 4:
+            Q.generics = ["%s: %s" % (g, " + ".join(dedup_list(need))) for g in Q.generics]
+        Q.note = "explicit bound twin (form %d) of %s: %s" % (form, P.pid, P.note)
+        out.append(Q)
+    return out
+
+
+def _genericize(P):
+    """the same program with the type of its first attribute-free field turned into a parameter T0
+    (instantiated with the original type for the Kani twin)"""
+    if any("expr" in t for t in P.traits) or any("expr" in a for v in P.variants for a in (v.attrs or [])):
+        return None
+    for v in P.variants:
+        for f in v.fields:
+            if not f.attrs and re.match(r"^(u8|u16|u32|bool|i8|i16)$", f.ty):
+                Q = copy.deepcopy(P)
+                Q.tags.pop("frozen_src", None)
+                ty = f.ty
+                for w in Q.variants:
+                    for g in w.fields:
+                        if not g.attrs and g.ty == ty:
+                            g.ty = "T0"
+                Q.generics = ["T0"]
+                Q.inst = {"T0": ty}
+                return Q
+    return None
+
+
+def dedup_list(xs):
+    o = []
+    for x in xs:
+        if x not in o:
+            o.append(x)
+    return o
 
 
 def adv_twins(programs, every=3):
